@@ -299,7 +299,7 @@ pub fn c03(o: &Opts, t: &mut Tracer) {
         }
     }
     // (e) seeded random sequences
-    let nrand = if o.quick() { 300 } else { 20000 };
+    let nrand = if o.quick() { 300 } else { 150000 };
     let mut rng = rng_for(o.seed, 0xC03);
     for i in 0..nrand {
         let api = APIS[i % 2];
